@@ -16,6 +16,8 @@
 //	                  the shrinker of the checks).
 //	-mode options     every options value of a finite grid x 8 queries on every sub-graph of a 6-triple universe; one
 //	                  digest per sub-graph.
+//	-mode faultctx    AddTriples / RemoveTriples under contexts that turn cancelled mid-call; lookup = scan audited after each.
+//	-mode parload     24 goroutines load one graph each at the same time, then a sequential audit of every graph.
 //	-mode burst       concurrent NewGraph / DeleteGraph of one name: exactly one caller succeeds.
 //	-mode overflow    replays finding C09-page-overflow (MaxElements = Offset = 2^32).
 //	-mode shared      concurrent callers sharing one LookupOptions value with LatestAnchor (defect F7).
@@ -121,7 +123,8 @@ var nodeStrs = [][2]string{{"/u", "a"}, {"/u", "b"}, {"/t", "a"}, {"/u", "ab"}, 
 // Same bytes in DIFFERENT component positions are harmless for a correct store (separate indexes, position-wise keys).
 // "pé" extends "p" by the bytes C3 A9, which are also the first bytes of the varint of some anchors (see anchorPool):
 // an encoding id ++ anchor without a fixed-width anchor field would not be injective.
-var idStrs = []string{"p", "q", "p q", "P", "/ua", "/ub", "pé"}
+// "pimmutable" = "p" ++ "immutable": Predicate.UUID of the immutable "p" hashes exactly the bytes of its id.
+var idStrs = []string{"p", "q", "p q", "P", "/ua", "/ub", "pé", "pimmutable"}
 
 // the first baseNodes nodes are the ordinary vocabulary; the nodes /o<0> .. /o<1099> after them only serve as objects of the
 // huge-bucket scenario
@@ -385,7 +388,7 @@ func randomScenario(r *rand.Rand, usize int, wide bool) *scenario {
 	ids := r.Perm(len(idStrs))[:2]
 	// every other scenario: the same bytes occur in two component positions (predicate id = type+id of a pooled node,
 	// or a text literal = a pooled predicate id)
-	cross := r.Intn(6)
+	cross := r.Intn(7)
 	forceLit := -1
 	ancient := false
 	var extraAnchors []anchor
@@ -393,6 +396,8 @@ func randomScenario(r *rand.Rand, usize int, wide bool) *scenario {
 	case 2: // ids "p" and "pé" with the two anchors whose unpadded encodings would make id ++ anchor ambiguous
 		ids[0], ids[1] = 0, 6
 		extraAnchors = []anchor{anchorPool[14], anchorPool[15]}
+	case 4: // ids "p" and "pimmutable": the full-UUID bytes of immutable "p" are the id bytes of the other
+		ids[0], ids[1] = 0, 7
 	case 3: // the second predicate id only has anchors BEFORE Go's zero time (0000-.., 0001-01-01T00:00:00+07:00)
 		ancient = true
 	case 0: // predicate id "/ua" together with the node /u<a> (number 0) as subject and as object
@@ -703,6 +708,26 @@ func (lo lopts) build() *storage.LookupOptions {
 	return out
 }
 
+func sameTimePtr(a, b *time.Time) bool {
+	if a == nil || b == nil {
+		return a == b
+	}
+	_, oa := a.Zone()
+	_, ob := b.Zone()
+	return a.Equal(*b) && oa == ob
+}
+
+func sameOptions(a, b *storage.LookupOptions) bool {
+	if a.MaxElements != b.MaxElements || a.Offset != b.Offset || a.LatestAnchor != b.LatestAnchor ||
+		!sameTimePtr(a.LowerAnchor, b.LowerAnchor) || !sameTimePtr(a.UpperAnchor, b.UpperAnchor) {
+		return false
+	}
+	if a.FilterOptions == nil || b.FilterOptions == nil {
+		return a.FilterOptions == b.FilterOptions
+	}
+	return *a.FilterOptions == *b.FilterOptions
+}
+
 func (sc *scenario) allQueries() []query {
 	var qs []query
 	ns, ps, os_ := len(sc.nodeIx), len(sc.preds), len(sc.objs)
@@ -922,11 +947,24 @@ func bytesToU64(b []byte) []uint64 {
 
 func (sc *scenario) digestState(objs []storage.Graph, qs []query, los []lopts) uint64 {
 	h := uint64(0)
+	// ONE options value per element of los, reused by all the lookups of this call (callers share options values, e.g.
+	// storage.DefaultLookup); after every lookup it must still be what it was
+	built := make([]*storage.LookupOptions, len(los))
+	for i, lo := range los {
+		built[i] = lo.build()
+	}
 	for _, g := range objs {
 		ck := contentKey(g)
 		for _, q := range qs {
-			for _, lo := range los {
-				enc := sc.runQuery(g, q, lo.build())
+			for i, lo := range los {
+				enc := sc.runQuery(g, q, built[i])
+				if !sameOptions(built[i], lo.build()) {
+					lj, _ := json.Marshal(lo)
+					qj, _ := json.Marshal(q)
+					emit(map[string]interface{}{"kind": "options_modified", "what": "a lookup changed the LookupOptions value passed to it",
+						"a": fmt.Sprintf("lookup %s with options %s", qj, lj), "b": fmt.Sprintf("options afterwards: %s (history %d)", built[i].String(), curHist)})
+					os.Exit(3)
+				}
 				switch {
 				case enc[0] != 0:
 					lkStats[2]++
@@ -1736,6 +1774,205 @@ func runBurst(rounds int) {
 		"bad_handle": badHandle, "first": first, "gomaxprocs": runtime.GOMAXPROCS(0)})
 }
 
+// ---------------------------------------------------------------- audit: lookup = scan, on the implementation alone
+// expected encoding of a default-options lookup computed from Triples() of the same graph
+func (sc *scenario) auditGraph(g storage.Graph) string {
+	ctx := context.Background()
+	var L []*tval
+	must(drain(func(c chan<- *triple.Triple) error { return g.Triples(ctx, storage.DefaultLookup, c) },
+		func(t *triple.Triple) {
+			u, ok := sc.byStr[t.String()]
+			if !ok {
+				foreign(fmt.Sprintf("triple %s (in Triples())", t))
+			}
+			L = append(L, u)
+		}))
+	sort.Slice(L, func(i, j int) bool { return L[i].rank < L[j].rank })
+	inL := map[string]bool{}
+	for _, u := range L {
+		inL[tkey(u)] = true
+	}
+	for _, t := range sc.univ {
+		ok, err := g.Exist(ctx, t.t)
+		must(err)
+		if ok != inL[tkey(t)] {
+			return fmt.Sprintf("Exist(%s) = %v but Triples() says %v", t.str, ok, inL[tkey(t)])
+		}
+	}
+	pm := func(q, p *pval) bool {
+		return q.id == p.id && (q.a == nil) == (p.a == nil) && (q.a == nil || (q.a.sec == p.a.sec && q.a.nsec == p.a.nsec))
+	}
+	for _, q := range sc.allQueries() {
+		var want []uint64
+		cnt := 0
+		for _, u := range L {
+			var okS, okP, okO = true, true, true
+			switch q.K {
+			case 0, 8:
+				okS, okP = sc.nodeIx[q.A] == u.s, pm(sc.preds[q.B], u.p)
+			case 1, 9:
+				okP, okO = pm(sc.preds[q.A], u.p), okey(sc.objs[q.B]) == okey(u.o)
+			case 2:
+				okS, okO = sc.nodeIx[q.A] == u.s, okey(sc.objs[q.B]) == okey(u.o)
+			case 3, 5:
+				okS = sc.nodeIx[q.A] == u.s
+			case 4, 7:
+				okO = okey(sc.objs[q.A]) == okey(u.o)
+			case 6:
+				okP = pm(sc.preds[q.A], u.p)
+			}
+			if !(okS && okP && okO) {
+				continue
+			}
+			cnt++
+			switch q.K {
+			case 0:
+				want = append(append(want, 2), sc.encObject(u.t.Object())...)
+			case 1:
+				want = append(want, 0, sc.encNode(u.t.Subject()))
+			case 2, 3, 4:
+				want = append(append(want, 1), sc.encPredicate(u.t.Predicate())...)
+			default:
+				want = append(append(want, 3), sc.encTriple(u.t)...)
+			}
+		}
+		want = append([]uint64{0, uint64(cnt)}, want...)
+		got := sc.runQuery(g, q, &storage.LookupOptions{})
+		if fmt.Sprint(got) != fmt.Sprint(want) {
+			qj, _ := json.Marshal(q)
+			return fmt.Sprintf("lookup %s returns %v, the scan of Triples() gives %v", qj, got, want)
+		}
+	}
+	return ""
+}
+
+// a context that reports Canceled from its (n+1)-th Err() call on
+type faultCtx struct {
+	context.Context
+	n *int32
+}
+
+func (c faultCtx) Err() error {
+	if atomic.AddInt32(c.n, -1) < 0 {
+		return context.Canceled
+	}
+	return nil
+}
+
+// mode faultctx: AddTriples / RemoveTriples under contexts that turn cancelled after 0..12 Err() calls; whatever the call
+// returns, the graph must still satisfy lookup = scan (every reachable graph, C02)
+func runFaultCtx(seed int64, rounds int) {
+	r := rand.New(rand.NewSource(seed*31 + 7))
+	sc := randomScenario(r, 24, false)
+	w := newWorld(sc)
+	w.apply(opx{kind: "new", n: 0})
+	g := w.objs[0]
+	calls, errs, bad := 0, 0, 0
+	var first map[string]interface{}
+	for i := 0; i < rounds; i++ {
+		var ts []*triple.Triple
+		var strs []string
+		for j := 1 + r.Intn(4); j > 0; j-- {
+			u := sc.univ[r.Intn(len(sc.univ))]
+			ts = append(ts, u.t)
+			strs = append(strs, u.str)
+		}
+		n := int32(r.Intn(13))
+		budget := n
+		ctx := faultCtx{context.Background(), &n}
+		kind := "AddTriples"
+		var err error
+		if r.Intn(5) < 3 {
+			err = g.AddTriples(ctx, ts)
+		} else {
+			kind = "RemoveTriples"
+			err = g.RemoveTriples(ctx, ts)
+		}
+		calls++
+		if err != nil {
+			errs++
+		}
+		if why := sc.auditGraph(g); why != "" {
+			bad++
+			if first == nil {
+				first = map[string]interface{}{"call": kind, "batch": strs, "context_cancelled_after_err_calls": budget,
+					"returned_error": err != nil, "why": why, "round": i}
+			}
+			// start again from a fresh graph so that one inconsistency is not counted for ever
+			w.apply(opx{kind: "drop", n: 0})
+			w.apply(opx{kind: "new", n: 0})
+			g = w.objs[len(w.objs)-1]
+		}
+	}
+	emit(map[string]interface{}{"kind": "faultctx", "calls": calls, "errors": errs, "bad": bad, "first": first})
+}
+
+// mode parload: 24 goroutines load one graph each (same store) with 2000 triples at the same time; afterwards, single
+// threaded, every graph must hold exactly its own triples (Exist for each, listing size) - graphs are independent
+func runParLoad(rounds int) {
+	ctx := context.Background()
+	a := anchorPool[0]
+	pImm, pT := mkPred(0, nil), mkPred(0, &a)
+	const workers, per = 24, 2000
+	bad := 0
+	var first map[string]interface{}
+	for rd := 0; rd < rounds; rd++ {
+		st := memory.NewStore()
+		gs := make([]storage.Graph, workers)
+		batches := make([][]*triple.Triple, workers)
+		for i := range gs {
+			g, err := st.NewGraph(ctx, fmt.Sprintf("?g%d", i))
+			must(err)
+			gs[i] = g
+			for j := 0; j < per; j++ {
+				p := pImm
+				if j%2 == 1 {
+					p = pT
+				}
+				t, err := triple.New(nodes[(i+j)%baseNodes], p.p, triple.NewNodeObject(nodes[baseNodes+(i*37+j)%extraNodes]))
+				must(err)
+				batches[i] = append(batches[i], t)
+			}
+		}
+		var wg sync.WaitGroup
+		start := make(chan struct{})
+		for i := range gs {
+			wg.Add(1)
+			go func(i int) {
+				defer wg.Done()
+				<-start
+				for k := 0; k < per; k += 50 {
+					must(gs[i].AddTriples(ctx, batches[i][k:k+50]))
+				}
+			}(i)
+		}
+		close(start)
+		wg.Wait()
+		for i, g := range gs {
+			distinct := map[string]bool{}
+			missing := 0
+			for _, t := range batches[i] {
+				distinct[t.String()] = true
+				if ok, _ := g.Exist(ctx, t); !ok {
+					missing++
+				}
+			}
+			listed := 0
+			must(drain(func(c chan<- *triple.Triple) error { return g.Triples(ctx, storage.DefaultLookup, c) },
+				func(*triple.Triple) { listed++ }))
+			if missing != 0 || listed != len(distinct) {
+				bad++
+				if first == nil {
+					first = map[string]interface{}{"round": rd, "graph": i, "added_distinct": len(distinct), "listed": listed,
+						"added_but_Exist_false": missing}
+				}
+			}
+		}
+	}
+	emit(map[string]interface{}{"kind": "parload", "rounds": rounds, "graphs_per_round": workers, "triples_per_graph": per,
+		"bad_graphs": bad, "first": first, "gomaxprocs": runtime.GOMAXPROCS(0)})
+}
+
 // ---------------------------------------------------------------- mode overflow (finding C09-page-overflow)
 func runOverflow() {
 	sc := exhaustiveScenario()
@@ -2023,6 +2260,10 @@ func main() {
 		runOverflow()
 	case "burst":
 		runBurst(*n)
+	case "faultctx":
+		runFaultCtx(*seed, *n)
+	case "parload":
+		runParLoad(*n)
 	default:
 		must(fmt.Errorf("unknown mode %q", *mode))
 	}
